@@ -1,5 +1,5 @@
 ENTRY = dict(
-    runner="C19", pkg="./cmd/c19", corr=["Corr.C19Corr"], n=dict(quick=60, thorough=1500), runner_timeout=2400,
+    runner="C19", pkg="./cmd/c19", corr=["Corr.C19Corr"], n=dict(quick=50, thorough=1500), runner_timeout=2400,
     rule="histories of 2..6 connections over loopback TCP sharing one tls.NewLRUClientSessionCache against the Go server of the utls "
          "package (session tickets on; TLS 1.2-only, TLS 1.3-only, TLS 1.3 with CurvePreferences forcing a HelloRetryRequest, "
          "TLS 1.2+1.3), one virtual clock for both ends. Corpus: every predefined ClientHelloID and 12 seeded randomized ones "
@@ -8,7 +8,9 @@ ENTRY = dict(
          "against each server kind; PSK parrots with and without OmitEmptyPsk and through a PatchBuiltHello length observer; pairs "
          "differing in extended_master_secret; server-name shapes (two DNS names, a trailing dot, IPv4/IPv6 literals reaching one listener, "
          "no ServerName with InsecureSkipVerify = remote-address key); clock advances up to 7 days + 1 s; InsecureSkipVerify mixes; "
-         "server version changes. Then -n random histories. A history is one case (per connection: spec features, name, server, "
+         "server version changes; the multi-step use on the resuming connection (BuildHandshakeState, then SetClientRandom or an ALPN "
+         "value edited in place, then Handshake); servers rotating their ticket key mid-history; cache entries whose secret the "
+         "test corrupts (the resumption must fail cleanly, the entry be evicted, the next connection complete). Then -n random histories. A history is one case (per connection: spec features, name, server, "
          "time, observed error class, DidResume, offered session kind, EMS in hello, HRR, cache content afterwards); every hello "
          "with pre_shared_key adds a length-accounting case. Distinct by the plan; non-trivial when some connection offered a session.",
     trusted_base=["hooks/verif_c19.go accessors for cached ClientSessionState fields",
